@@ -16,9 +16,6 @@ def classify(pid, name, case, msg):
 
 
 def _classify_c08(name, case, msg):
-    if case.get("format", "").startswith("gcxs") and case.get("shape") == [] and name.split("(")[0].split("[")[0] in (
-            "reshape", "sparse.reshape", "flatten", "expand_dims") and "raised" in msg:
-        return "F-gcxs-0d"
     return None
 
 
@@ -26,15 +23,6 @@ def _classify_c02(name, case, msg):
     fmt = case.get("format", "")
     idx = case.get("index", [])
     kinds = [e[0] for e in idx]
-    if fmt.startswith("gcxs"):
-        if case.get("shape") == []:
-            return "F-gcxs-0d-index"
-        if "n" in kinds:
-            return "F-gcxs-newaxis-key"
-        if kinds.count("a") + kinds.count("b") >= 2:
-            return "F-gcxs-multi-array-key"
-        if "e" in kinds and "numpy returns an array but the call returned" in msg:
-            return "F-gcxs-ellipsis-scalar"
     if fmt == "dok":
         if kinds and all(k in ("a", "b") for k in kinds) and len(kinds) != len(case.get("shape", [])) and "NotImplementedError" in msg:
             return "F-dok-partial-index-lists"
@@ -60,8 +48,6 @@ def _has_empty_reduced_axis(case):
 def _classify_c03(name, case, msg):
     fmt = case.get("format", "")
     shp = case.get("shape", [])
-    if fmt.startswith("gcxs") and shp == []:
-        return "F-gcxs-0d-reduce"
     if _has_empty_reduced_axis(case):
         red = case.get("reduction")
         uf = case.get("ufunc", "")
@@ -74,9 +60,6 @@ def _classify_c03(name, case, msg):
 
 
 def _classify_c09(name, case, msg):
-    mem = case.get("members")
-    if name == "stack" and mem and all(m["format"].startswith("gcxs") for m in mem) and all(np_ndim(m["dense"]) == 0 for m in mem) and "fingerprint" in msg:
-        return "F-gcxs-0d-stack"
     return None
 
 
